@@ -334,7 +334,7 @@ def _sib_vocab(f):
     return v
 
 
-def rule_SIB1(ctx):
+def rule_SIB1(ctx, which='geodesic'):
     import collections
     res = RuleResult('SIB1', 'clone siblings agree: for a function of the series solver/line and the function of the same name in '
                              'the exact solver/line, a variable or member that both assign using only names known to both '
@@ -349,82 +349,139 @@ def rule_SIB1(ctx):
     nnames = 0
     nrewrites = 0
     used_audit = set()
-    for a, b in SIBLING_CLASSES:
-        for q, fs in sorted(byq.items()):
-            if not q.startswith(NS + a + '::'):
+    for f, g in _sib_pairs(ctx, which):
+        nm = f.q.split('::')[-1]
+        df, dg = _sib_defs(f), _sib_defs(g)
+        vf, vg = _sib_vocab(f), _sib_vocab(g)
+        common = vf & vg
+        npairs += 1
+        for L in sorted(set(df) | set(dg)):
+            base = L.split('.')[0].split('[')[0]
+            if L not in common and base not in common:
                 continue
-            nm = q.split('::')[-1]
-            q2 = NS + b + '::' + (b if nm == a else nm)
-            if q2 not in byq:
+            sf, sg = df.get(L, []), dg.get(L, [])
+            if any(not x[1] <= common for x in sf + sg):
+                continue            # one side uses names the other does not have: not comparable
+            nnames += 1
+            cf = collections.Counter(x[0] for x in sf)
+            cg = collections.Counter(x[0] for x in sg)
+            if cf == cg:
+                res.ob(True, None)
                 continue
-            for f in fs:
-                gs = [g for g in byq[q2] if len(g.params) == len(f.params)]
-                if len(gs) != 1:
-                    continue
-                g = gs[0]
-                df, dg = _sib_defs(f), _sib_defs(g)
-                vf, vg = _sib_vocab(f), _sib_vocab(g)
-                common = vf & vg
-                npairs += 1
-                for L in sorted(set(df) | set(dg)):
-                    base = L.split('.')[0].split('[')[0]
-                    if L not in common and base not in common:
-                        continue
-                    sf, sg = df.get(L, []), dg.get(L, [])
-                    if any(not x[1] <= common for x in sf + sg):
-                        continue            # one side uses names the other does not have: not comparable
-                    nnames += 1
-                    cf = collections.Counter(x[0] for x in sf)
-                    cg = collections.Counter(x[0] for x in sg)
-                    if cf == cg:
-                        res.ob(True, None)
-                        continue
-                    only_f, only_g = list((cf - cg).elements()), list((cg - cf).elements())
-                    # the two signatures of a slip (anything else is a rewrite and is not judged):
-                    #  (i) one side has exactly one statement more, the rest is identical;
-                    #  (ii) one statement on each side, same structure, exactly one identifier or literal differs
-                    kind = None
-                    if (len(only_f), len(only_g)) in ((1, 0), (0, 1)):
-                        missing = (only_f or only_g)[0]
-                        lacking = dg if only_f else df
-                        # a refactoring that moved the expression into another variable is a rewrite, not a dropped statement
-                        moved = any(missing in x[0] for xs in lacking.values() for x in xs)
-                        if not moved:
-                            kind = 'one sibling has a statement the other lacks'
-                    elif len(only_f) == 1 and len(only_g) == 1:
-                        xf = [x for x in sf if x[0] == only_f[0]][0]
-                        xg = [x for x in sg if x[0] == only_g[0]][0]
-                        (shf, lf_), (shg, lg_) = _sib_shape(f, xf[3]), _sib_shape(g, xg[3])
-                        if shf == shg and xf[4] == xg[4] and len(lf_) == len(lg_):
-                            diff = [(a_, b_) for a_, b_ in zip(lf_, lg_) if a_ != b_]
-                            if len(diff) == 1:
-                                kind = 'the same statement with %s in one sibling and %s in the other' % diff[0]
-                        elif sorted(lf_) == sorted(lg_) and xf[4] == xg[4] and \
-                                sorted(re.findall(r'[-+*/]', shf)) == sorted(re.findall(r'[-+*/]', shg)) and \
-                                sorted(re.findall(r'[a-zA-Z_]\w*\(', shf)) == sorted(re.findall(r'[a-zA-Z_]\w*\(', shg)):
-                            # (iii) the same operands under the same operators and calls, arranged differently
-                            kind = 'the same operands and operators arranged differently (%s / %s)' % (only_f[0][:60], only_g[0][:60])
-                    if kind is None:
-                        nrewrites += 1
-                        res.ob(True, {'function': nm, 'name': L, 'not_judged': 'the siblings assign it through differently '
-                                      'structured statements (a rewrite, not the signature of a slip)'})
-                        continue
-                    if (nm, L) in SIB1_AUDITED:
-                        used_audit.add((nm, L))
-                        res.ob(True, {'function': nm, 'name': L, 'audited': SIB1_AUDITED[(nm, L)]})
-                        continue
-                    res.ob(False, {'series': f.q, 'exact': g.q, 'name': L, 'only_series': sorted(only_f)[:3],
-                                   'only_exact': sorted(only_g)[:3]})
-                    at = None
-                    for x in sf:
-                        if x[0] in only_f:
-                            at = f.loc(x[2])
-                    for x in sg:
-                        if at is None and x[0] in only_g:
-                            at = g.loc(x[2])
-                    res.fail(f.q, L, at or f.loc(),
-                             '%s in the siblings %s and %s: %s (series only: %s; exact only: %s)'
-                             % (L, f.q, g.q, kind, sorted(only_f)[:2] or 'nothing', sorted(only_g)[:2] or 'nothing'))
+            only_f, only_g = list((cf - cg).elements()), list((cg - cf).elements())
+            # the two signatures of a slip (anything else is a rewrite and is not judged):
+            #  (i) one side has exactly one statement more, the rest is identical;
+            #  (ii) one statement on each side, same structure, exactly one identifier or literal differs
+            kind = None
+            if (len(only_f), len(only_g)) in ((1, 0), (0, 1)):
+                missing = (only_f or only_g)[0]
+                lacking = dg if only_f else df
+                # a refactoring that moved the expression into another variable is a rewrite, not a dropped statement
+                moved = any(missing in x[0] for xs in lacking.values() for x in xs)
+                if not moved:
+                    kind = 'one sibling has a statement the other lacks'
+            elif len(only_f) == 1 and len(only_g) == 1:
+                xf = [x for x in sf if x[0] == only_f[0]][0]
+                xg = [x for x in sg if x[0] == only_g[0]][0]
+                (shf, lf_), (shg, lg_) = _sib_shape(f, xf[3]), _sib_shape(g, xg[3])
+                if shf == shg and xf[4] == xg[4] and len(lf_) == len(lg_):
+                    diff = [(a_, b_) for a_, b_ in zip(lf_, lg_) if a_ != b_]
+                    if len(diff) == 1:
+                        kind = 'the same statement with %s in one sibling and %s in the other' % diff[0]
+                elif sorted(lf_) == sorted(lg_) and xf[4] == xg[4] and \
+                        sorted(re.findall(r'[-+*/]', shf)) == sorted(re.findall(r'[-+*/]', shg)) and \
+                        sorted(re.findall(r'[a-zA-Z_]\w*\(', shf)) == sorted(re.findall(r'[a-zA-Z_]\w*\(', shg)):
+                    # (iii) the same operands under the same operators and calls, arranged differently
+                    kind = 'the same operands and operators arranged differently (%s / %s)' % (only_f[0][:60], only_g[0][:60])
+            if kind is None:
+                nrewrites += 1
+                res.ob(True, {'function': nm, 'name': L, 'not_judged': 'the siblings assign it through differently '
+                              'structured statements (a rewrite, not the signature of a slip)'})
+                continue
+            if (nm, L) in SIB1_AUDITED:
+                used_audit.add((nm, L))
+                res.ob(True, {'function': nm, 'name': L, 'audited': SIB1_AUDITED[(nm, L)]})
+                continue
+            res.ob(False, {'series': f.q, 'exact': g.q, 'name': L, 'only_series': sorted(only_f)[:3],
+                           'only_exact': sorted(only_g)[:3]})
+            at = None
+            for x in sf:
+                if x[0] in only_f:
+                    at = f.loc(x[2])
+            for x in sg:
+                if at is None and x[0] in only_g:
+                    at = g.loc(x[2])
+            res.fail(f.q, L, at or f.loc(),
+                     '%s in the siblings %s and %s: %s (series only: %s; exact only: %s)'
+                     % (L, f.q, g.q, kind, sorted(only_f)[:2] or 'nothing', sorted(only_g)[:2] or 'nothing'))
     res.analysed.update({'sibling_pairs': npairs, 'names_compared': nnames, 'audited_divergences_used': len(used_audit),
                          'differently_structured_not_judged': nrewrites})
     return res, npairs, nnames
+
+
+# ---------------------------------------------------------------------------------------------- SIB2
+INTRA_CLASS_SIBLINGS = [(NS + 'SphericalEngine::Value', NS + 'SphericalEngine::Circle')]
+
+
+def _sib_pairs(ctx, which):
+    byq = {}
+    for f in ctx.lib_fns():
+        if f.d.get('body', -1) >= 0:
+            byq.setdefault(f.q, []).append(f)
+    pairs = []
+    if which in ('geodesic', 'all'):
+        for a, b in SIBLING_CLASSES:
+            for q, fs in sorted(byq.items()):
+                if not q.startswith(NS + a + '::'):
+                    continue
+                nm = q.split('::')[-1]
+                q2 = NS + b + '::' + (b if nm == a else nm)
+                if q2 not in byq:
+                    continue
+                for f in fs:
+                    gs = [g for g in byq[q2] if len(g.params) == len(f.params)]
+                    if len(gs) == 1:
+                        pairs.append((f, gs[0]))
+    if which in ('harmonic', 'all'):
+        for qa, qb in INTRA_CLASS_SIBLINGS:
+            if qa not in byq or qb not in byq:
+                raise AnalysisBroken('SIB2: %s / %s not found' % (qa, qb))
+            pairs.append((sorted(byq[qa], key=lambda f: f.line)[0], sorted(byq[qb], key=lambda f: f.line)[0]))
+    return pairs
+
+
+def rule_SIB2(ctx, which='geodesic'):
+    res = RuleResult('SIB2', 'clone siblings order alike: two statements that occur (once, in canonical form) in both of a pair of '
+                             'sibling functions and depend on each other - one assigns what the other reads or assigns - come in the '
+                             'same order in both (a step moved across another in one sibling only)')
+    npairs = 0
+    ndeps = 0
+    for f, g in _sib_pairs(ctx, which):
+        occ = []
+        for h in (f, g):
+            d = {}
+            for L, xs in _sib_defs(h).items():
+                for x in xs:
+                    n = h.nodes[x[2]]
+                    d.setdefault((L, x[0]), []).append(((n.get('l', 0), n.get('c', 0)), x[1], x[2]))
+            occ.append(d)
+        common = sorted(k for k in occ[0] if k in occ[1] and len(occ[0][k]) == 1 and len(occ[1][k]) == 1)
+        if not common:
+            continue
+        npairs += 1
+        for i, k1 in enumerate(common):
+            b1 = k1[0].split('.')[0].split('[')[0]
+            for k2 in common[i + 1:]:
+                b2 = k2[0].split('.')[0].split('[')[0]
+                if not (b1 in occ[0][k2][0][1] or b2 in occ[0][k1][0][1] or k1[0] == k2[0]):
+                    continue
+                ndeps += 1
+                oa = occ[0][k1][0][0] < occ[0][k2][0][0]
+                ob = occ[1][k1][0][0] < occ[1][k2][0][0]
+                res.ob(oa == ob, None)
+                if oa != ob:
+                    res.fail(g.q, '%s/%s' % (k1[0], k2[0]), g.loc(occ[1][k2][0][2]),
+                             '`%s = %s` and `%s = %s` depend on each other and come in opposite orders in the siblings %s and %s'
+                             % (k1[0], k1[1][:50], k2[0], k2[1][:50], f.q, g.q))
+    res.analysed.update({'sibling_pairs_with_common_statements': npairs, 'dependent_statement_pairs': ndeps})
+    return res, npairs, ndeps
